@@ -39,6 +39,20 @@ def build_translator():
     return rc == 0, log, out
 
 
+AKITA_PREFIX = 'github.com/sarchlab/akita/v4/'
+
+
+def run_translator_library(binary):
+    """Informational: sites inside the akita packages that the walked simulation
+    packages depend on (read-only from the module cache).  Not classified."""
+    js = os.path.join(vlib.BUILD, 'c05_sites_library.json')
+    rc, log = vlib.run([binary, '-repo', vlib.REPO, '-go', vlib.go_bin(), '-json', js, '-libprefix', AKITA_PREFIX],
+                       env=vlib.go_env(), timeout=600)
+    if rc != 0:
+        return None, log
+    return json.load(open(js)), log
+
+
 def run_translator(binary):
     js = os.path.join(vlib.BUILD, 'c05_sites_found.json')
     with vlib.Lock('coq'):   # MapRanges.v is an input of the Coq build
@@ -227,6 +241,12 @@ def workloads(thorough):
         {'name': 'multiq-2gpu-timing', 'wl': 'multiq', 'size': 256, 'rounds': 16, 'prefilled': True, 'queues': 2, 'flags': ['-timing', '-report-all', '-disable-rtm', '-gpus=1,2'],
          'gmps': [1, 1, 1, 2, 4, 16, 16, 16] if not thorough else [1, 1, 1, 1, 2, 2, 4, 4, 16, 16, 16, 16]},
     ]
+    # one long kernel (4096 work-groups x 8 wavefronts: work-groups complete while others still wait to be dispatched);
+    # every repetition quiet (GOMAXPROCS=1 GOGC=off), so the known hand-off race is out of the picture
+    w += [
+        {'name': 'longkernel-4096wg-timing', 'wl': 'longk', 'size': 4096, 'rounds': 8, 'prefilled': True, 'queues': 1, 'quiet_all': True,
+         'timeout': 120, 'gmps': [1, 1, 1, 1] if not thorough else [1] * 8, 'flags': ['-timing', '-report-all', '-disable-rtm']},
+    ]
     if thorough:
         w += [
             {'name': 'fir1024-timing', 'wl': 'fir', 'size': 1024, 'rounds': 0, 'flags': T},
@@ -263,7 +283,7 @@ def compare_workload(binary, spec, gmps, pool):
     up among the quiet runs, or that changes the functional result or the set of
     metric rows, is a VIOLATION; value differences that vanish in quiet runs are
     the known hand-off class."""
-    runs = list(pool.map(lambda a: sim_run(binary, spec, a[1], a[0]), list(enumerate(gmps))))
+    runs = list(pool.map(lambda a: sim_run(binary, spec, a[1], a[0], quiet=bool(spec.get('quiet_all'))), list(enumerate(gmps))))
     bad_rc = [r for r in runs if r['rc'] != 0]
     if bad_rc:
         r = bad_rc[0]
@@ -353,6 +373,8 @@ def main(argv):
         rep.violation({'broken': 'tools/gen/nondet failed on the current tree: the site list cannot be established', 'log': tlog[-4000:]},
                       nofail=True, text='translator failed')
         return rep.finish()
+    lib, liblog = run_translator_library(tbin)
+    rep.obligation('translator walks the akita packages on the simulation path (informational list)', lib is not None)
     classes = json.load(open(SITES))['sites']
     keys = [s['key'] for s in found['sites']]
     new_sites = [s for s in found['sites'] if s['key'] not in classes]
@@ -360,7 +382,7 @@ def main(argv):
     rep.obligation('every nondeterminism site of the source tree is classified (%d sites)' % len(keys), not new_sites)
 
     # ---- Coq: models and proofs first, then the statements (which include every_site_accounted)
-    okm, mlog = vlib.coq_build(['sys/EngineProofs.vo', 'sys/EngineConserve.vo', 'sys/MapRangeProofs.vo', 'sys/Handoff.vo', 'gen/MapRanges.vo'])
+    okm, mlog = vlib.coq_build(['sys/EngineProofs.vo', 'sys/EngineConserve.vo', 'sys/EngineOrder.vo', 'sys/MapRangeProofs.vo', 'sys/Handoff.vo', 'gen/MapRanges.vo'])
     if not okm:
         rep.obligation('coq build (models, proofs)', False)
         rep.violation({'broken': 'Coq development for C05 does not compile', 'log': mlog[-4000:]}, nofail=True)
@@ -542,6 +564,8 @@ def main(argv):
         'sites_found': len(keys), 'sites_by_kind': dict(collections.Counter(s['kind'] for s in found['sites'])),
         'sites_by_class': dict(by_class), 'sites_unclassified': [s['key'] for s in new_sites], 'classification_stale_entries': stale,
         'packages_walked': found['packages'], 'files_walked': found['files'],
+        'unmodelled_library_sites': [{'key': x['key'], 'kind': x['kind'], 'line': x['line']} for x in (lib or {}).get('sites', [])],
+        'library_packages_walked': (lib or {}).get('packages'), 'library_files_walked': (lib or {}).get('files'),
         'order_relevant_sites_unmodelled': [k for k in keys if k in classes and classes[k]['class'] == 'order_relevant'],
         'simulation_runs': n_runs, 'simulation_wall_s': round(t_sim, 1), 'simulation_workloads': sim_summary,
         'handoff_witness': witness, 'handoff_observations': handoff_seen[:3],
